@@ -319,6 +319,7 @@ func cvTok(v cv) string {
 }
 
 func goTok(v any) string {
+	v = normGo(v)
 	switch x := v.(type) {
 	case nil:
 		return "null"
